@@ -274,10 +274,90 @@ def rule_hops(ctx):
         check_hop_loop(ctx, r, ctx.prog.need(name, file), raw)
 
 
+def rule_r2(ctx):
+    r = ctx.rule("C04.R2", "T9", "the protocol header is composed from scratch: in every cooked send slot (sock_send / ctx_send) "
+                 "that writes the protocol header of the user's message, nni_msg_header_clear on that message precedes every "
+                 "nni_msg_header_append*: a header the caller left in the message (a recycled reply) must not travel in front "
+                 "of the request id / backtrace", floor=4)
+    prog = ctx.prog
+    seen = 0
+    fns = []
+    for slot in ("nni_proto_sock_ops.sock_send", "nni_proto_ctx_ops.ctx_send"):
+        for f in prog.slot_fns(slot):
+            if f not in fns and "/protocol/" in f.file and not f.cfg_failed:
+                fns.append(f)
+    for f in fns:
+        apps = [c for c in f.calls(("nni_msg_header_append", "nni_msg_header_append_u32")) if c.node["args"]]
+        if not apps:
+            continue
+        clears = [c for c in f.calls("nni_msg_header_clear") if c.node["args"]]
+        for a in apps:
+            m = G.resolve(f, a.node["args"][0], (a.b, a.i))
+            mine = [c for c in clears if same_expr(G.resolve(f, c.node["args"][0], (c.b, c.i)), m)]
+            seen += 1
+            if mine and f.dominated_by((a.b, a.i), blocked=lambda b, i, e: (b, i) in G.positions(mine)):
+                r.ob(f, "%s line %s preceded by nni_msg_header_clear" % (a.node["fn"], a.line))
+            else:
+                ctx.fail(r, f, "header appended without clearing it first", a.line,
+                         "%s at line %s adds to whatever header the caller's message already carries: with a recycled message "
+                         "the old header (another exchange's id or backtrace) is sent in front of this one, and the peer "
+                         "answers the wrong exchange" % (a.node["fn"], a.line))
+    if seen < 4:
+        raise AnalysisBroken("only %d header appends in cooked send slots found" % seen)
+
+
+def rule_r7(ctx):
+    r = ctx.rule("C04.R7", "T3", "an id is retired with the value it was registered under: no nni_id_remove(map, x->F) is reachable "
+                 "from a store x->F = 0 without x->F having been assigned again (the removal would look up 0 and leave the live "
+                 "id registered, so a later reply with that id is matched to a new exchange)", floor=10)
+    prog = ctx.prog
+    n = 0
+    for f in prog.functions:
+        if f.cfg_failed:
+            continue
+        for c in f.calls("nni_id_remove"):
+            if len(c.node["args"]) < 2:
+                continue
+            key = f.expand(c.node["args"][1])
+            if key.get("k") != "mem":
+                continue
+            n += 1
+            fld = last_field(key)
+            zero = [t for t in f.assigns() if t.node["lhs"].get("k") == "mem" and same_expr(t.node["lhs"], key) and
+                    const_of(f.expand(t.node["rhs"])) == 0]
+            again = set()
+            for t in f.assigns():
+                if t.node["lhs"].get("k") == "mem" and same_expr(t.node["lhs"], key) and const_of(f.expand(t.node["rhs"])) != 0:
+                    again.add((t.b, t.i))
+            for a in f.calls(("nni_id_alloc32", "nni_id_alloc")):
+                if len(a.node["args"]) > 1 and same_expr(strip(f.expand(a.node["args"][1])), key):
+                    again.add((a.b, a.i))
+            bad = None
+            for z in zero:
+                if G.reaches(f, (z.b, z.i + 1), [(c.b, c.i)], blocked=again):
+                    bad = z
+            if bad is not None:
+                ctx.fail(r, f, "%s cleared before it is removed from the map" % fld, c.line,
+                         "%s is set to 0 at line %s and then used as the key of nni_id_remove at line %s: the removal is a "
+                         "no-op and the id the object was registered under stays in the map" % (show(key), bad.line, c.line))
+            else:
+                r.ob(f, "nni_id_remove(.., %s) line %s uses the live value" % (show(key), c.line))
+    if n < 8:
+        raise AnalysisBroken("only %d nni_id_remove calls keyed by a field" % n)
+
+
+def strip(n):
+    while n is not None and n.get("k") == "un" and n.get("op") == "&":
+        n = n["e"]
+    return n
+
+
 def run(ctx):
     ctx.guard(rule_r1)
+    ctx.guard(rule_r2)
     ctx.guard(rule_r3)
     ctx.guard(rule_r4)
     ctx.guard(rule_r5)
     ctx.guard(rule_r6)
+    ctx.guard(rule_r7)
     ctx.guard(rule_hops)
